@@ -164,7 +164,8 @@ def searchDblLoop : (fuel lower upper mid : Nat) → Option (Status × Int)
       else searchDblLoop f lo mid ((lo + mid) >>> 1)
     else some (.failure, EMPTY)
 
-/-- `ref_sort_search_dbl`; `none` = the loop does not terminate (possible only for unsorted / NaN input) -/
+/-- `ref_sort_search_dbl`; `none` = the loop does not terminate (possible only when a comparison is not
+    total, i.e. a NaN in the list: `Lemmas/ContainersSortDbl.lean` proves termination over any linear order) -/
 def searchDbl : Option (Status × Int) :=
   let n := a.length
   if n < 1 then some (.not_found, EMPTY)
